@@ -104,6 +104,8 @@ def gen_obs(tier, scratch, cases):
     for level in levels:
         lifted = os.path.join(scratch, "c02_O%d.c" % level)
         for c in cases:
+            if c.get("gen_only") and level < 2 and tier != "thorough":
+                continue  # constant folding is an -O2/-O3 transformation: quick tier runs these at -O2 only
             if c["name"].startswith("fp3i_"):
                 continue  # fp immediates become literal-pool data items: the gen runner maps no module data (C01 does); the link-time
                           # lowering these cases are about is shared by both engines and is decided on the interpreter leg
@@ -129,11 +131,19 @@ def prepare(tier, scratch):
     if p.returncode != 0:
         raise RuntimeError("mirdump failed on the generated corpus: " + p.stderr[-2000:])
     cases = json.load(open(os.path.join(scratch, "c02_cases.json")))
+    # interpreter leg: one dump per group of 24 functions (small static data: CBMC can print counterexample traces)
+    for grp in sorted(set(c["interp_group"] for c in cases)):
+        with open(os.path.join(scratch, "c02_dump_g%d.h" % grp), "w") as f:
+            p = subprocess.run([exe, os.path.join(scratch, "c02_g%d.mir" % grp)], stdout=f, stderr=subprocess.PIPE, text=True)
+        if p.returncode != 0:
+            raise RuntimeError("mirdump failed on corpus group %d: %s" % (grp, p.stderr[-2000:]))
     obs = []
     del DEFERRED[:]
     for c in cases:
         solver, timeout = ("z3", 900) if c["heavy"] else (None, 300)
         n = c["name"]
+        if c.get("gen_only"):
+            continue  # both operands constant: the interpreter does not fold; these cases exist for the generator's constant folding
         if n.startswith("i3_") and any(k in n for k in ("MUL", "DIV", "MOD")):
             solver = "z3"  # also the immediate shapes: MiniSat gave no verdict in 300 s for mul/muls by -1 and by 0x7fffffff
         if n.startswith("fp3i_"):
@@ -158,8 +168,9 @@ def prepare(tier, scratch):
             continue
         if n.endswith("_imm1") and c["group"] == "ovf":
             timeout = 900  # known finding F5: the counterexample trace through the interpreter state takes CBMC minutes to build
-        obs.append(Ob("interp." + n, "C02/interp.c", defs=["MIR_DIRECT_DISPATCH"], cc=["-I" + scratch], entry=c["entry"],
-                      loops={"eval#0": 14}, unwind=12, checks="functional", timeout=timeout,
+        obs.append(Ob("interp." + n, "C02/interp.c", defs=["MIR_DIRECT_DISPATCH", 'H_DUMP="c02_dump_g%d.h"' % c["interp_group"], 'H_CASES="c02_cases_g%d.h"' % c["interp_group"]],
+                      cc=["-I" + scratch], entry=c["entry"],
+                      loops={"eval#0": 34 if c["group"] in ("memov", "memop") else 14}, unwind=12, checks="functional", timeout=timeout,
                       # h.h's bounded memcpy/memcmp/memset loops (the case code compares 64..96-byte buffers); "function#k" loop names
                       # cannot be resolved in entry-selected binaries (no main), so CBMC loop ids are given directly
                       unwindset={"memcmp.0": 98, "memcpy.0": 14, "memcpy.1": 98, "memset.0": 14, "memset.1": 98, c["entry"] + ".0": 14},
